@@ -513,9 +513,10 @@ impl<'a, Lookup: Fn(u16) -> Option<AsRoutingInterfaceState>> AdvanceValidator
         match self.ingress {
             // Checks done on ingress
             true => {
+                // A packet received from another AS must name the interface it was received on,
+                // also when the hop field starts a segment (ingress interface 0).
                 if hop_index == self.ingress_hop_index
                     && self.current_interface_id != 0
-                    && ingress_interface != 0
                     && ingress_interface != self.current_interface_id
                 {
                     return Err(StandardRoutingError::InvalidIngressInterface {
